@@ -26,7 +26,7 @@ claim('C06', 'model_checking',
       'exhaustive enumeration of policy configurations (rule lists x contexts x base policies), each a fresh real bus probed with a fixed message/name-request set, judged by a transcription of the manual\'s rule evaluation',
       'Every ordered list of <= k atomic rules over the documented attributes, in every assignment to the contexts default / group / user / mandatory, over an open and a closed base policy, is loaded by a real in-process bus, both at start-up and by a reload from an allow-everything configuration with the connections (and some name ownerships and queue positions) already in place; '
       'a registry state with a multi-name receiver, a queued owner and prefix-related names is built and ~20 probes per configuration are sent by a sender of another uid. Delivery, AccessDenied errors and RequestName results must equal '
-      'the documented evaluation; a denied message must reach nobody; a reply from a third connection carrying the serial of somebody else\'s outstanding call is not a requested reply.',
+      'the documented evaluation; a denied message must reach nobody; a reply from a third connection carrying the serial of somebody else\'s outstanding call is not a requested reply; a third party holding eavesdropping match rules gets a copy of a unicast probe exactly when the addressee gets the message, the sender may send to it and its receive rules allow it as an eavesdropper.',
       'Trusts pyv/models/policy.py as the reading of doc/dbus-daemon.1.xml.in. Cases the manual leaves open (rules naming member/path/error against messages lacking the field, non-prefix destination rules against a queued-only owner, '
       'destination rules on broadcasts before a recipient is known, the order among several group contexts) are UNSPEC and only counted. at_console, SELinux and AppArmor are outside this build.',
       'DESIGN.md section 4 C06')
